@@ -32,7 +32,7 @@ def Top : ModSrc := { src "top" "" with imports := [(bs "aaa", [])] }
 def B2 : ModSrc := { src "bbb" "" with feats := [⟨bs "g1", none⟩] }
 def E : ModSrc := { src "eee" "" with hasData := true }
 
-/-! the module set of F57: `mdd` → leafref into `mcc` → leafref into `mbb` → augment of `maa` -/
+/-! the module set of F137: `mdd` → leafref into `mcc` → leafref into `mbb` → augment of `maa` -/
 def Ma : ModSrc := { src "maa" "2019-01-01" with feats := [⟨bs "f1", none⟩] }
 def Mb : ModSrc := { src "mbb" "2019-01-01" with imports := [(bs "maa", bs "2019-01-01")], augments := [bs "maa"] }
 def Mc : ModSrc := { src "mcc" "2020-02-02" with imports := [(bs "maa", bs "2019-01-01"), (bs "mbb", bs "2019-01-01")], lrefs := [bs "mbb"] }
